@@ -804,6 +804,86 @@ def validate_generated_code(rep, lg, per_rule, rnd, nmut):
                       _replay_src("parse", {"tag": "python", "root": "start", "w": sent}), "o2iv_%d" % len(rep.violations))
 
 
+def _allsat_regions(lg, tier):
+    T = lg.tok_ids
+    header = [T[x] for x in ("PROGNAME", "NAME", "NEWLINE", "VERSION", "FLOAT", "NEWLINE")]
+    return [
+        ("statement", header, [T[x] for x in ("NAME", "INT", "LBRAC", "RBRAC", "LSQBRAC", "RSQBRAC", "COMMA", "PLUS", "APPLY")], (3, 7 if tier == "quick" else 8), [T["NEWLINE"], 0]),
+        ("statement after arguments", header + [T["NAME"], T["LBRAC"], T["FLOAT"], T["RBRAC"], T["APPLY"]],
+         [T[x] for x in ("NAME", "INT", "LBRAC", "RBRAC", "LSQBRAC", "RSQBRAC", "COMMA", "TIMES", "PWR", "MINUS")], (1, 6 if tier == "quick" else 7), [T["NEWLINE"], 0]),
+        ("for-loop header", header + [T[x] for x in ("FOR", "TYPE_INT", "NAME", "IN")],
+         [T[x] for x in ("INT", "COLON", "LBRAC", "RBRAC", "LSQBRAC", "RSQBRAC", "COMMA", "PLUS", "NAME")], (1, 6 if tier == "quick" else 7),
+         [T[x] for x in ("NEWLINE", "TAB", "NAME", "APPLY", "INT", "NEWLINE")] + [0]),
+    ]
+
+
+def _allsat_job(arg):
+    ri, k, tier = arg
+    lg = langmod.Lang()
+    NG, NA = lg.parser_G(), lg.parser_A()
+    start = lg.rule_ids["start"]
+    label, pre, alphabet, _, post = _allsat_regions(lg, tier)[ri]
+    n = len(pre) + k + len(post)
+    toks = [z3.BitVec("a%d" % i, 8) for i in range(n)]
+    cg = cfg.CFG(NG, toks, "G")
+    sol = z3.Solver()
+    for i, v in enumerate(pre):
+        sol.add(toks[i] == v)
+    for i, v in enumerate(post):
+        sol.add(toks[len(pre) + k + i] == v)
+    for i in range(len(pre), len(pre) + k):
+        sol.add(z3.Or([toks[i] == a for a in alphabet]))
+    sol.add(cg.X(start, 0, n))
+    out = {"label": label, "k": k, "classes": len(alphabet), "count": 0, "bad": [], "sat": 0, "unsat": 0, "unknown": 0, "dt": 0.0}
+    t0 = time.time()
+    while True:
+        r = str(sol.check())
+        out[r if r in ("sat", "unsat") else "unknown"] += 1
+        if r != "sat":
+            break
+        mdl = sol.model()
+        sent = [mdl.eval(t, model_completion=True).as_long() for t in toks]
+        sol.add(z3.Or([toks[i] != sent[i] for i in range(len(pre), len(pre) + k)]))
+        out["count"] += 1
+        ok, errs = lg.real_parse_tokens(sent[:-1])
+        if not ok and len(out["bad"]) < 3:
+            out["bad"].append((sent, cfg.concrete_derives(NA, start, sent)))
+    out["dt"] = time.time() - t0
+    out["complete"] = r == "unsat"
+    return out
+
+
+def allsat_decisions(rep, lg, tier):
+    """O2v: the generated parser *code* against the grammar on ALL sentences of a region, enumerated by the solver (AllSAT with
+    blocking clauses on the CFG encoding of blackbird.g4): a fixed context, a free window of up to k tokens over a small
+    alphabet (one representative per token class).  The windows sit where the grammar needs more than one token of
+    lookahead - optional brackets in front of an expression list - which is where hand-edited or LL(1)-simplified parser code
+    goes wrong.  Every enumerated sentence is parsed by the real generated code (and, if rejected, by the shipped automaton)."""
+    regions = _allsat_regions(lg, tier)
+    jobs = [(ri, k, tier) for ri, (_, _, _, (kmin, kmax), _) in enumerate(regions) for k in range(kmin, kmax + 1)]
+    jobs.sort(key=lambda j: -j[1])
+    total = 0
+    bad = []
+    for res in common.pmap(_allsat_job, jobs):
+        for q in ("sat", "unsat", "unknown"):
+            for _ in range(res[q]):
+                rep.q[q] += 1
+        rep.solver_s += res["dt"]
+        total += res["count"]
+        rep.evaluations += 1
+        rep.distinct.add(("allsat", res["label"], res["k"]))
+        verdict = "violated" if res["bad"] else ("holds" if res["complete"] else "inconclusive")
+        rep.obligation("O2v %s: all %d grammar sentences with a free window of %d tokens over %d token classes are accepted by the generated parser code"
+                       % (res["label"], res["count"], res["k"], res["classes"]), verdict)
+        bad += [(res["label"], s_, e_) for (s_, e_) in res["bad"]]
+    rep.validated += total
+    rep.extra["allsat_sentences_parsed_by_generated_code"] = total
+    for (label, sent, enc_a) in bad[:3]:
+        rep.violation("O2v:%s" % label, "the generated parser code rejects a sentence of blackbird.g4 (%s; the shipped automaton %s it): %r"
+                      % (label, "accepts" if enc_a else "also rejects", _symnames(lg, sent)),
+                      _replay_src("parse", {"tag": "python", "root": "start", "w": sent}), "o2v_%d" % len(rep.violations))
+
+
 def validate_corpus(rep, lg):
     """the repo's own scripts through real lexer vs both concrete tokenisers, and real parser vs CFG encoding"""
     import glob
@@ -916,6 +996,7 @@ def main():
         validate_corpus(rep, lg)
         validate_parser(rep, lg, b["N_start"], 40 if t == "quick" else 200, rnd)
         validate_generated_code(rep, lg, 60 if t == "quick" else 400, rnd, 300 if t == "quick" else 3000)
+        allsat_decisions(rep, lg, t)
         # every distinct non-python automaton gets its own language check (witness for the difference)
         for kind in ("lexer", "parser"):
             seen = []
